@@ -346,7 +346,11 @@ func (c *ownChecker) analyse(fi *FuncInfo, returnsRef bool) {
 		case *ast.AssignStmt:
 			if len(v.Rhs) == 1 {
 				rhs := unparen(v.Rhs[0])
-				if call, ok := rhs.(*ast.CallExpr); ok {
+				if call, ok := rhs.(*ast.CallExpr); ok && isAppend(info, call) && len(call.Args) == 2 && c.isRefExpr(call.Args[1]) && c.deferredReleaseList(fi, call.Args[0]) {
+					// release = append(release, ref): the reference moves into a list that a deferred
+					// function ranges over, calling DecRef on every element.
+					s.Bal[key(call.Args[1])]--
+				} else if call, ok := rhs.(*ast.CallExpr); ok {
 					k, isSrc := isSourceCall(info, call)
 					var errObj types.Object
 					if len(v.Lhs) > 0 {
@@ -987,4 +991,52 @@ func sameBlockBefore(l *Loaded, a ast.Node, b ast.Node) bool {
 		}
 		sa = p
 	}
+}
+
+func isAppend(info *types.Info, call *ast.CallExpr) bool {
+	id, ok := call.Fun.(*ast.Ident)
+	if !ok || id.Name != "append" {
+		return false
+	}
+	_, isB := info.Uses[id].(*types.Builtin)
+	return isB
+}
+
+// deferredReleaseList: list is a local slice that a deferred function literal of fi ranges over,
+// calling DecRef on the range value.
+func (c *ownChecker) deferredReleaseList(fi *FuncInfo, list ast.Expr) bool {
+	info := c.info
+	obj := objOf(info, list)
+	if obj == nil {
+		return false
+	}
+	found := false
+	ast.Inspect(fi.Decl.Body, func(n ast.Node) bool {
+		d, ok := n.(*ast.DeferStmt)
+		if !ok {
+			return true
+		}
+		lit, ok := unparen(d.Call.Fun).(*ast.FuncLit)
+		if !ok {
+			return true
+		}
+		ast.Inspect(lit.Body, func(m ast.Node) bool {
+			rs, ok := m.(*ast.RangeStmt)
+			if !ok || objOf(info, rs.X) != obj || rs.Value == nil {
+				return true
+			}
+			ev := info.Defs[rs.Value.(*ast.Ident)]
+			ast.Inspect(rs.Body, func(k ast.Node) bool {
+				if call, ok := k.(*ast.CallExpr); ok && calleeKey(info, call) == "p9.fidRef.DecRef" {
+					if sel, ok := unparen(call.Fun).(*ast.SelectorExpr); ok && objOf(info, sel.X) == ev {
+						found = true
+					}
+				}
+				return true
+			})
+			return true
+		})
+		return true
+	})
+	return found
 }
